@@ -189,6 +189,11 @@ unsigned long le_quad(const byte *d)
 std::optional<Header> read_and_verify_header(DFS::FileAccess *f, std::string& error)
 {
   std::vector<byte> header_data = f->read(0, 19);
+  if (header_data.size() < 19)
+    {
+      error = "file is too short to contain an HxC MFM file header";
+      return std::nullopt;
+    }
   const byte* d = header_data.data();
   /* 0x00 - 0x06 is a magic string, including a terminating NUL. */
   const char expected_magic[7] = "HXCMFM";
@@ -374,6 +379,10 @@ std::map<TrackDataKey, TrackData> HxcMfmFile::get_track_metadata()
        pos += 11)
     {
       std::vector<byte> raw_metadata = file_->read(pos, 11);
+      if (raw_metadata.size() < 11)
+	{
+	  throw InvalidHxcMfmFile("the track list is incomplete (the file is too short)");
+	}
       const byte* raw = raw_metadata.data();
       const TrackDataKey key(le_word(raw), raw[2]);
       const TrackData td(le_quad(raw+3), le_quad(raw+7));
